@@ -14,7 +14,9 @@ CASE_TYPE = 'c12_case'
 CHECK = 'c12_check'
 SHOW = 'c12_show'
 SHARD = 120
-RULE = ('case = (list of extents of a context: complete, a sub-list keeping top and bottom, or a non-graded family '
+RULE = ('[plus histories on ONE list object: an order-construction call, in-place remove_concept + add_concept '
+        'bringing the list back to its length, then the routine under test on the current list] '
+        'case = (list of extents of a context: complete, a sub-list keeping top and bottom, or a non-graded family '
         '(pentagon-like, uneven chains below a node: every family of object sets is a sub-list of the concepts of '
         'the context with one attribute per set); sorted or '
         'shuffled; flag: set on the sort_concepts listing AND on arbitrary linear extensions - random topological, '
@@ -192,6 +194,42 @@ def run_impl(case):
         cs = make_concepts(case)
         n = len(cs)
         op, flag, jobs = case['op'], case['sorted'], case['n_jobs']
+        hist = case.get('list_history')
+        if hist:
+            # ONE list object: an order-construction call, then in-place remove + add (same length again, no
+            # sorting call in between), then the routine under test on the CURRENT list
+            def first_call():
+                if hist['first'] == 'by_spanning_tree':
+                    return rel_list(lca.construct_lattice_by_spanning_tree(cs, is_concepts_sorted=False), len(cs))
+                if hist['first'] == 'complete_comparison':
+                    return rel_list(lca.complete_comparison(cs, is_concepts_sorted=False), len(cs))
+                st = lca.construct_spanning_tree(cs, is_concepts_sorted=False)
+                ch = ConceptLattice._get_chains(cs, st[1], is_concepts_sorted=False)
+                return rel_list(lca.construct_lattice_from_spanning_tree(cs, ch, is_concepts_sorted=False), len(cs))
+            exts = [list(e) for e in case['exts']]
+            want = covers_py(exts)
+            if first_call() != [sorted(want[i]) for i in range(n)]:
+                raise ChainMismatch('first order-construction call is wrong')
+            sub = {i: set(v) for i, v in want.items()}
+            sup = transpose_py(want, n)
+            t0 = b0 = None
+            for step in hist['steps']:
+                if step[0] == 'remove':
+                    _, sub, sup, t0, b0 = lca.remove_concept(step[1], cs, sub, sup, t0, b0, inplace=True)
+                    del exts[step[1]]
+                else:
+                    new = make_concepts(case, [step[1]])[0]
+                    _, sub, sup, t0, b0 = lca.add_concept(new, cs, sub, sup, t0, b0, inplace=True)
+                    exts.append(list(step[1]))
+                if [sorted(int(g) for g in c.extent_i) for c in cs] != [sorted(e) for e in exts]:
+                    raise ArgumentsMutated('the list does not hold the expected concepts after an in-place %s' % step[0])
+                if hist.get('between') == 'call' and step is not hist['steps'][-1]:
+                    first_call()
+            cur = covers_py(exts)
+            if rel_list(sub, len(exts)) != [sorted(cur[i]) for i in range(len(exts))]:
+                raise ChainMismatch('relation after the in-place edits is wrong')
+            n = len(cs)
+            return go_routines(lca, ConceptLattice, cs, n, op, False, jobs, cur_exts=exts) + [exts]
         if op >= 8:
             cov = covers_py(case['exts'])
             return run_add_remove(case, lca, cs, {i: set(v) for i, v in cov.items()}, transpose_py(cov, n))
@@ -201,7 +239,7 @@ def run_impl(case):
         finally:
             _check_unchanged(OPS[op], before, cs)
 
-    def go_routines(lca, ConceptLattice, cs, n, op, flag, jobs):
+    def go_routines(lca, ConceptLattice, cs, n, op, flag, jobs, cur_exts=None):
         if op == 0:
             return [rel_list(lca.complete_comparison(cs, is_concepts_sorted=flag, n_jobs=jobs), n), [], 0, 0]
         if op in (1, 2, 4, 5) and case.get('chains') is None:
@@ -218,7 +256,7 @@ def run_impl(case):
         else:
             chains = case.get('chains')
         if op == 3:
-            parents = transpose_py(covers_py(case['exts']), n)
+            parents = transpose_py(covers_py(cur_exts if cur_exts is not None else case['exts']), n)
             return [canon(ConceptLattice._get_chains(cs, parents, is_concepts_sorted=flag)), [], 0, 0]
         if op == 4:
             arg = [list(c) for c in chains]
@@ -256,22 +294,37 @@ def _nat_lists(v):
 
 def impl_term(out):
     if out[0] == 'ok':
-        r1, r2, t, b = out[1]
+        r1, r2, t, b = out[1][:4]
         if not (_nat_lists(r1) and _nat_lists(r2) and isinstance(t, int) and isinstance(b, int) and t >= 0 and b >= 0):
             return Raw('(IErr 12)')
         return Raw('(IOk ((%s, %s), (%d, %d)))' % (coq(r1), coq(r2), t, b))
     return Raw('(IErr %d)' % ERR_KINDS.get(out[1], 11))
 
 
+def current_exts(case, out):
+    """the list the routine under test saw: after the history, if there is one"""
+    if case.get('list_history'):
+        if out[0] == 'ok' and len(out[1]) > 4:
+            return out[1][4]
+        exts = [list(e) for e in case['exts']]
+        for step in case['list_history']['steps']:
+            if step[0] == 'remove':
+                del exts[step[1]]
+            else:
+                exts.append(list(step[1]))
+        return exts
+    return case['exts']
+
+
 def to_coq(case, out):
     chains = case.get('chains')
     if chains is None and case['op'] in (4, 5) and out[0] == 'ok':
         chains = out[1][1]
-        out = ['ok', [out[1][0], [], 0, 0]]
+        out = ['ok', [out[1][0], [], 0, 0] + out[1][4:]]
     elif case['op'] in (4, 5) and out[0] == 'ok':
-        out = ['ok', [out[1][0], [], 0, 0]]
+        out = ['ok', [out[1][0], [], 0, 0] + out[1][4:]]
     return 'Build_c12_case %s %s %d %d %s %d %s %s %s %s' % (
-        coq(case['exts']), coq(bool(case['sorted'])), case['op'], case['n_jobs'], coq(chains or []),
+        coq(current_exts(case, out)), coq(bool(case['sorted'])), case['op'], case['n_jobs'], coq(chains or []),
         case.get('arg') or 0, coq(case.get('new') or []), some(case.get('top')), some(case.get('bottom')),
         impl_term(out))
 
@@ -279,8 +332,8 @@ def to_coq(case, out):
 # ------------------------------------------------------------------ generation
 
 def _mk(table, exts, flag, op, n_jobs=1, chains=None, arg=None, new=None, top=None, bottom=None,
-        switch=False, kind='', mode=None):
-    return {'mode': mode, 'table': table, 'exts': exts, 'sorted': flag, 'op': op, 'n_jobs': n_jobs, 'chains': chains,
+        switch=False, kind='', mode=None, list_history=None):
+    return {'list_history': list_history, 'mode': mode, 'table': table, 'exts': exts, 'sorted': flag, 'op': op, 'n_jobs': n_jobs, 'chains': chains,
             'arg': arg, 'new': new, 'top': top, 'bottom': bottom, 'switch': switch, 'kind': kind}
 
 
@@ -655,6 +708,56 @@ def exhaustive_cases():
                 yield _mk(t, listing, flag, op, kind='exhaustive')
 
 
+def history_case(rng, max_dim, max_n):
+    """order construction, in-place remove + add on the same list object, order construction again"""
+    for _ in range(30):
+        if rng.random() < 0.3:
+            table, full, kind = nongraded_family(rng, max_n)
+        else:
+            table, kind = small_table(rng, max_dim)
+            full = sorted(all_extents(table), key=sort_key)
+        if len(full) >= 5:
+            break
+    inner = full[1:-1]
+    k = rng.randint(max(1, len(inner) // 2), max(1, min(len(inner) - 1, max_n - 3)))
+    keep = sorted(rng.sample(range(len(inner)), min(k, len(inner))))
+    exts = [full[0]] + [inner[i] for i in keep] + [full[-1]]
+    spare = [inner[i] for i in range(len(inner)) if i not in keep]
+    listing, _, mode = arrange(rng, exts)
+    steps, cur = [], [list(e) for e in listing]
+    for _ in range(rng.choice([1, 1, 2])):
+        s = [frozenset(e) for e in cur]
+        top = max(range(len(s)), key=lambda i: len(s[i]))
+        bot = min(range(len(s)), key=lambda i: len(s[i]))
+        cand = [i for i in range(len(cur)) if i not in (top, bot)]
+        if not cand:
+            break
+        i = rng.choice(cand)
+        removed = cur[i]
+        new = rng.choice(spare) if spare and rng.random() < 0.85 else removed
+        if new in spare:
+            spare.remove(new)
+            spare.append(removed)
+        if rng.random() < 0.8:
+            steps += [['remove', i], ['add', new]]
+            del cur[i]
+            cur.append(new)
+        else:
+            steps += [['add', new], ['remove', i]] if new != removed else [['remove', i], ['add', new]]
+            if new != removed:
+                cur.append(new)
+                del cur[i]
+            else:
+                del cur[i]
+                cur.append(new)
+    hist = {'first': rng.choice(['by_spanning_tree', 'by_spanning_tree', 'tree+chains+sweep', 'complete_comparison']),
+            'steps': steps, 'between': rng.choice(['none', 'none', 'none', 'call'])}
+    op = rng.choice([6, 6, 1, 2, 3, 0, 7])
+    if op == 7:
+        op = 6
+    return _mk(table, listing, False, op, kind='%s/history/%s' % (kind, mode), list_history=hist)
+
+
 SEQ_OPS = [0, 0, 1, 2, 3, 4, 4, 5, 6, 6, 7, 8, 8, 9, 9]
 
 
@@ -667,8 +770,8 @@ def generate(rng, tier):
     else:
         cases += rng.sample(ex, 300)
         n_seq, n_thr, n_sw, dim, max_n = 1300, 56, 4, 5, 14
-    for _ in range(n_seq):
-        cases.append(random_case(rng, dim, max_n, SEQ_OPS))
+    for k in range(n_seq):
+        cases.append(history_case(rng, dim, max_n) if k % 9 == 4 else random_case(rng, dim, max_n, SEQ_OPS))
     thr = []
     for k in range(n_thr + n_sw):
         # threaded: parallel sweep (given chains or the library's), by_spanning_tree, a few complete_comparison
@@ -691,12 +794,12 @@ def generate(rng, tier):
 # ------------------------------------------------------------------ statistics / shrinking
 
 def nontrivial(case):
-    s = [frozenset(e) for e in case['exts']]
+    s = [frozenset(e) for e in current_exts(case, ['err'])]
     n = len(s)
     if n < 5:
         return False
     incomparable = any(not (s[i] <= s[j] or s[j] <= s[i]) for i in range(n) for j in range(i))
-    cov = covers_py(case['exts'])
+    cov = covers_py(current_exts(case, ['err']))
     noncover = any(s[j] < s[i] and j not in cov[i] for i in range(n) for j in range(n))
     return incomparable and noncover
 
@@ -710,6 +813,8 @@ def stats(case):
         sup = [len(e) for e in case['exts']]
         d['flagged listing'] = ('support non-increasing' if all(sup[i] >= sup[i + 1] for i in range(len(sup) - 1))
                                 else 'topological, supports go up and down')
+    if case.get('list_history'):
+        d['list history'] = 'first %s, in-place edits, then %s' % (case['list_history']['first'], OPS[case['op']])
     if case['op'] in (8, 9):
         d['calling mode'] = case.get('mode') or 'inplace'
         full = case['exts'] + ([case['new']] if case.get('new') is not None else [])
@@ -723,6 +828,8 @@ def stats(case):
 
 def shrink(case):
     out = []
+    if case.get('list_history'):
+        return out
     exts = case['exts']
     n = len(exts)
     if case['op'] in (8, 9) or n <= 2:
